@@ -59,13 +59,24 @@ impl Default for Options {
 
 pub trait Parse: Sized {
 	fn parse_slice(content: &[u8]) -> Result<(Self, CodeMap), Error> {
-		Self::parse_utf8(utf8_decode::Decoder::new(content.iter().copied()))
-			.map_err(Error::io_into_utf8)
+		Self::parse_slice_with(content, Options::default())
 	}
 
 	fn parse_slice_with(content: &[u8], options: Options) -> Result<(Self, CodeMap), Error> {
-		Self::parse_utf8_with(utf8_decode::Decoder::new(content.iter().copied()), options)
-			.map_err(Error::io_into_utf8)
+		match std::str::from_utf8(content) {
+			Ok(content) => Self::parse_str_with(content, options),
+			Err(e) => {
+				// Parse the well-formed prefix, then report the first
+				// ill-formed sequence (unless a syntax error comes first).
+				let valid = std::str::from_utf8(&content[..e.valid_up_to()]).unwrap();
+				let invalid = io::Error::new(io::ErrorKind::InvalidData, "invalid UTF-8 sequence");
+				Self::parse_utf8_with(
+					valid.chars().map(Ok).chain(std::iter::once(Err(invalid))),
+					options,
+				)
+				.map_err(Error::io_into_utf8)
+			}
+		}
 	}
 
 	fn parse_str(content: &str) -> Result<(Self, CodeMap), Error> {
